@@ -368,11 +368,12 @@ theorem sortQsl_perm (xs : List QItem) : (sortQsl xs).Perm xs := by
 /-- unquoting twice is unquoting once (C14 / C02) -/
 theorem safelyUnquote_idem' (U : List UInt8) (hU : (0x25 : UInt8) ∈ U) (hA : AsciiSet U) (s : Str) :
     safelyUnquote U (safelyUnquote U s) = safelyUnquote U s := by
-  have hout := outTok_unquoteToks U (tokens s) (wf_tokens s)
-  have h : tokens (safelyUnquote U s) = unquoteToks U (tokens s) :=
-    tokens_render_of_canon _ (fun t ht => canon_of_outTok hU (wf_tokens s) (hout t ht))
+  have hw := wf_escapeRaw (wf_tokens s)
+  have hout := outTok_unquoteToks U (escapeRaw (tokens s)) hw
+  have h : tokens (safelyUnquote U s) = unquoteToks U (escapeRaw (tokens s)) :=
+    tokens_render_of_canon _ (fun t ht => canon_of_outTok hU hw (hout t ht))
   unfold safelyUnquote at h ⊢
-  rw [h, unquoteToks_idem U hU hA]
+  rw [h, escapeRaw_unquoteToks, unquoteToks_idem U hU hA]
 
 theorem unquoteQueryItem_idem (s : Str) : unquoteQueryItem (unquoteQueryItem s) = unquoteQueryItem s :=
   safelyUnquote_idem' _ (by decide) (by unfold AsciiSet; decide) s
